@@ -308,6 +308,9 @@ class ExprMixin:
         self.unsupported(e, 'constant')
 
     def e_Name(self, st, e):
+        if self.spec_mode and e.id in self.reg.specfuncs and getattr(e, '_is_call_func', False):
+            # in contract text a spec function is not shadowed by a local of the program that happens to carry its name
+            return [(st, VFunc('spec', name=e.id))]
         v, _ = st.lookup(e.id)
         if v is not None:
             return [(st, v)]
